@@ -59,7 +59,7 @@ def model_check(structs, form, xdesc, leaf="any"):
     """-> (allowed, structs after)"""
     if xdesc[0] == "none":
         return {dl.TRUE}, structs
-    if leaf == "uptree":
+    if leaf in ("uptree", "uptree2"):
         # L = Union[str, PyTree[int]]: a str is a leaf, and so is every maximal subtree all of whose leaves are ints (PyTree[int]
         # matches it as a whole -- vacuously also None and empty containers)
         is_leaf = lambda d: (d[0] == "leaf" and d[1] == "str") or all(lf[1] != "str" for lf in pt.leaves(d))  # noqa: E731
@@ -210,9 +210,9 @@ def check_case(ctx, case):
     form = case["form"]
     from typing import Union
 
-    L = {"int": int, "any": Any, "pair": tuple[int, int], "uptree": Union[str, PyTree[int]]}[case["leaf"]]
+    L = {"int": int, "any": Any, "pair": tuple[int, int], "uptree": Union[str, PyTree[int]], "uptree2": Union[PyTree[int], str]}[case["leaf"]]
     rt, rs, rx = selfcheck(t), selfcheck(s), selfcheck(x)
-    if case["leaf"] == "uptree":
+    if case["leaf"] in ("uptree", "uptree2"):
         rt, rs, rx = (pt.build(d, lambda p: "s-leaf" if p == "str" else 1) for d in (t, s, x))
     if case["leaf"] == "pair":
         # every leaf is itself a container, (7, 8), that only the leaf type makes a leaf
@@ -281,8 +281,8 @@ def c09_case(draw):
     nmut = draw(st.sampled_from([0, 1, 0, 0, 1, 2]))
     for _ in range(nmut):
         x = mutate(draw, x)
-    leaf_kind = draw(st.sampled_from(["int", "pair", "any", "uptree", "int"]))
-    if leaf_kind == "uptree":
+    leaf_kind = draw(st.sampled_from(["int", "pair", "any", "uptree", "uptree2", "int"]))
+    if leaf_kind in ("uptree", "uptree2"):
         def strs(tree):
             nl = len(pt.leaves(tree))
             return gt.relabel(tree, iter(["str" if draw(st.integers(0, 2)) == 0 else 0 for _ in range(nl)])) if nl else tree
@@ -305,7 +305,7 @@ def c09_case(draw):
 
         x = collapse(x, [False])
     # occasionally one leaf of t or x is not an int: with L=int that check must fail and bind nothing
-    if leaf_kind != "uptree" and draw(st.integers(0, 7)) == 0:
+    if leaf_kind not in ("uptree", "uptree2") and draw(st.integers(0, 7)) == 0:
         which = draw(st.sampled_from(["t", "x"]))
         tree = t if which == "t" else x
         nl = len(pt.leaves(tree))
